@@ -572,7 +572,7 @@ func runWitness(c *mon.Case) {
 }
 
 func main() {
-	mon.SetNote("rule", "case = (s1, s2, scoring scheme) through align.NewPwAligner(ALIGN_ALGO_SW)+Set*+Alignment(), one aligner object per call. `exhaustive`: every ordered pair of strings over {A,C,G} of length 1..4 (120 x 120) under 10 schemes (7 match/mismatch schemes with affine or linear gaps incl. open > -match, 3 DNAfull schemes), each pair also solved by brute-force enumeration of all local alignments; `random-nt` / `random-aa`: random, related (substitutions + indels + flanks), substring-at-an-end, single-residue and single-long-gap pairs up to 60 residues (250 in thorough) over ACGT / IUPAC+U / two letters / 20 amino acids / + B Z X *, both cases with the matrices, random dyadic schemes (match/mismatch or DNAfull / BLOSUM62, open <= extend < 0). Oracles per pair: rows of equal length, no all-gap column, ungapped rows == the substrings delimited by the reported starts/ends, counts recomputed from the columns and adding up to Length, Alignment() object == Seq1Ali/Seq2Ali, inputs unchanged, and when the Gotoh optimum is > 0: MaxScore == score of the returned rows (own scorer) == optimum. `inputs`: both algorithms of the aligner (plain and anchored at the start of the first sequence), succeeding and failing calls (a residue without matrix entry, nucleotide against protein): the two input sequences are bit-identical afterwards. Non-trivial = optimum > 0 and (the alignment contains a gap or starts in the first row/column of the DP matrix); distinct = (s1, s2, scheme). `cli`: `goalign sw` through the binary built from the tree under test: a FASTA file with two sequences (generators of random-nt / random-aa), --match and --mismatch both / only one / none, --gap-open and --gap-extend both / only one / none (documented defaults -10 / -0.5 / match 1 / mismatch -1), -l log, -o or stdout, output as fasta / -p (+ --output-strict / --one-line / --no-block) / -x / -u / -k; the alignment written is read back and must have two rows of equal length named as the input, no all-gap column, ungapped rows that are substrings of the inputs, and (when the Gotoh optimum under the CONFIGURED scheme is > 0) the score of the rows written == optimum; with -l: positions, length, counts and rows of the log agree with the rows written and the logged score == optimum; one / three sequences, an empty or missing file, an unknown flag, a non numeric score must end with an error message and a non zero status.")
+	mon.SetNote("rule", "case = (s1, s2, scoring scheme) through align.NewPwAligner(ALIGN_ALGO_SW)+Set*+Alignment(), one aligner object per call. `exhaustive`: every ordered pair of strings over {A,C,G} of length 1..4 (120 x 120) under 10 schemes (7 match/mismatch schemes with affine or linear gaps incl. open > -match, 3 DNAfull schemes), each pair also solved by brute-force enumeration of all local alignments; `random-nt` / `random-aa`: random, related (substitutions + indels + flanks), substring-at-an-end, single-residue and single-long-gap pairs up to 60 residues (250 in thorough) over ACGT / IUPAC+U / two letters / 20 amino acids / + B Z X *, both cases with the matrices, random dyadic schemes (match/mismatch or DNAfull / BLOSUM62, open <= extend < 0). Oracles per pair: rows of equal length, no all-gap column, ungapped rows == the substrings delimited by the reported starts/ends, counts recomputed from the columns and adding up to Length, Alignment() object == Seq1Ali/Seq2Ali, inputs unchanged, and when the Gotoh optimum is > 0: MaxScore == score of the returned rows (own scorer) == optimum. `inputs`: both algorithms of the aligner (plain and anchored at the start of the first sequence), succeeding and failing calls (a residue without matrix entry, nucleotide against protein): the two input sequences are bit-identical afterwards. Non-trivial = optimum > 0 and (the alignment contains a gap or starts in the first row/column of the DP matrix); distinct = (s1, s2, scheme). `concurrent` (-race build): 2..8 goroutines, each aligning its own pair with its own aligner object 6 times at GOMAXPROCS 1..16 (long low-complexity pairs, common prefix + unrelated tails, related pairs): no race report and the result of the same call made alone. `cli`: `goalign sw` through the binary built from the tree under test: a FASTA file with two sequences (generators of random-nt / random-aa), --match and --mismatch both / only one / none, --gap-open and --gap-extend both / only one / none (documented defaults -10 / -0.5 / match 1 / mismatch -1), -l log, -o or stdout, output as fasta / -p (+ --output-strict / --one-line / --no-block) / -x / -u / -k; the alignment written is read back and must have two rows of equal length named as the input, no all-gap column, ungapped rows that are substrings of the inputs, and (when the Gotoh optimum under the CONFIGURED scheme is > 0) the score of the rows written == optimum; with -l: positions, length, counts and rows of the log agree with the rows written and the logged score == optimum; one / three sequences, an empty or missing file, an unknown flag, a non numeric score must end with an error message and a non zero status.")
 	mon.SetNote("assumptions", "scores are dyadic rationals so float equality is exact;; gap run of g columns costs open + (g-1)*extend, a gap in the other row starts a new run;; with SetScore two residues match iff their bytes are equal, with a matrix letters are case-folded (as the aligner documents);; NbMatches may count a letter facing its other-case form as a match or as a mismatch (statement silent), gap columns are counted exactly;; the score of a residue pair under a built-in matrix is read from the table the binary was built with (verif hook VerifSubstMatrix), and that table is compared entry by entry with the published EDNAFULL / BLOSUM62 typed in mon/c09/ref.go (goalign's additions: U scores like T, X like N in DNAfull);; Gotoh DP and brute force are the trusted oracles (they must agree with each other on every tiny pair, otherwise the harness panics);; empty sequences and nucleotide-vs-protein pairs are outside the quantifier;; cli: the scheme the user configured is read from the help text of `goalign sw`: substitution matrix (blosum62 / dnafull by the alphabets of the two sequences; letters common to both alphabets make a nucleotide sequence as AutoAlphabet documents) if neither --match nor --mismatch is given, else match / mismatch with the documented default (1 / -1) for the one left out; gap scores default to -10 / -0.5;; cli: the log prints the score with two decimals: generated scores are multiples of 1/4;; cli: Nexus / Clustal / Stockholm outputs are read back with goalign's own parsers (property C02) and only asked for plain upper case residues")
 	mon.SetNote("exhaustive_subspaces", "all 14400 ordered pairs of strings over {A,C,G} with lengths 1..4 x 10 scoring schemes (both tiers), and all ordered pairs over {A,W,T} (DNAfull, 4 gap schemes), {E,Z,P} (BLOSUM62, 4) and {E,Q,L,F} (BLOSUM62, 2 schemes, 340 x 340 pairs) with lengths 1..4, each checked against Gotoh and brute force; all entries of both substitution tables")
 	mon.Floor("exhaustive-pairs", 144000)
@@ -607,6 +607,7 @@ func main() {
 	mon.Floor("cli:protein", 60)
 	mon.Floor("cli:nucleotide", 120)
 	mon.Floor("cli:alignment-with-gap", 15)
+	mon.Floor("concurrent:alignments", 3000)
 	mon.Main("C09", []mon.Sub{
 		{Name: "witness", Quick: 16, Thorough: 16, Run: runWitness},
 		{Name: "tables", Quick: 2, Thorough: 2, Run: runTables},
@@ -615,6 +616,7 @@ func main() {
 		{Name: "inputs", Quick: 40000, Thorough: 800000, Run: runInputs},
 		{Name: "random-nt", Quick: 600000, Thorough: 6000000, Run: func(c *mon.Case) { runRandom(c, false) }},
 		{Name: "random-aa", Quick: 300000, Thorough: 3000000, Run: func(c *mon.Case) { runRandom(c, true) }},
+		{Name: "concurrent", Quick: 160, Thorough: 3200, Race: true, Run: runConcurrent},
 		{Name: "cli", Quick: 360, Thorough: 4000, Run: runCli},
 	})
 }
